@@ -26,6 +26,7 @@ import Kvass.Proofs.LoopStable
 import Kvass.Proofs.LoopRepair
 import Kvass.Proofs.LoopStay
 import Kvass.Proofs.CoordRelief
+import Kvass.Proofs.CoordReliefHead
 
 namespace Kvass.Props.C03
 open Kvass Kvass.Coord Kvass.Spec
@@ -158,6 +159,24 @@ theorem C03_relief_progress (swr : Swr) (sc : Sched) (inp : Input)
     (∃ pl ∈ (cycle swr sc inp).log, pl.kind = 1) ∨
     ∃ k, (cycle swr sc inp).scales.getLast? = some k ∧ (inp.probes.length : Int) < k :=
   relief_progress swr sc inp hsync hmp hmh hnn hen hne hnc hmax i s hs hch htr hnb hload
+
+/-- **C03 (progress of relief, head series)**: the same for a shard over one of the head-series
+    thresholds (110 %, 140 %, 160 %, 180 % of the limit) whose settled head load exceeds what the
+    threshold expects and that holds no settled target exceeding the head limit alone: a relief move
+    (process or head) is logged, or more shards than there are get requested. -/
+theorem C03_relief_progress_head (swr : Swr) (sc : Sched) (inp : Input)
+    (hsync : ∀ p ∈ inp.probes, inSync p = true)
+    (hmp : 0 < inp.opt.maxProc) (hmh : 0 < inp.opt.maxHead)
+    (hnn : ∀ k, 0 ≤ (globalOf (infos0 inp) inp.explore k).series ∧ 0 ≤ (globalOf (infos0 inp) inp.explore k).total)
+    (hen : Gen.allevDisabled inp.opt = false)
+    (hne : stopsEarly inp = false) (hnc : (cycle swr sc inp).crashed = false)
+    (hmax : (inp.probes.length : Int) < inp.opt.maxShard)
+    (i : Nat) (s : SI) (ex : Rate) (hs : (startCS inp).shards[i]? = some s) (hch : s.changeable = true)
+    (htr : headThreshold swr inp.opt s.rt = some ex) (hnb : NBh inp.opt (startCS inp) i)
+    (hload : Gen.headExpect swr inp.opt ex < loadHead s) :
+    (∃ pl ∈ (cycle swr sc inp).log, pl.kind = 1 ∨ pl.kind = 2) ∨
+    ∃ k, (cycle swr sc inp).scales.getLast? = some k ∧ (inp.probes.length : Int) < k :=
+  relief_progress_head swr sc inp hsync hmp hmh hnn hen hne hnc hmax i s ex hs hch htr hnb hload
 
 /-- non-vacuity: shard 0 reports two settled targets of 60 series each (limit 100).  With an empty
     second shard one of them is moved; with a second shard that has no room a third shard is asked for -/
